@@ -111,6 +111,8 @@ type InMemCollector struct {
 	tracesToSend chan sendableTrace // Channel of traces ready for transmission
 	done         chan struct{}
 
+	// hostname is added to forwarded spans when it is not empty. It follows the
+	// reloadable AddHostMetadataToTrace option (see setHostname); guarded by mutex.
 	hostname string
 
 	memMetricSample []rtmetrics.Sample // Memory monitoring using runtime/metrics
@@ -194,11 +196,7 @@ func (i *InMemCollector) Start() error {
 	i.done = make(chan struct{})
 	i.reload = make(chan struct{}, 1)
 
-	if i.Config.GetAddHostMetadataToTrace() {
-		if hostname, err := os.Hostname(); err == nil && hostname != "" {
-			i.hostname = hostname
-		}
-	}
+	i.setHostname()
 
 	// Initialize runtime/metrics sample for efficient memory monitoring
 	i.memMetricSample = make([]rtmetrics.Sample, 1)
@@ -240,6 +238,9 @@ func (i *InMemCollector) sendReloadSignal(cfgHash, ruleHash string) {
 
 func (i *InMemCollector) reloadConfigs() {
 	i.Logger.Debug().Logf("reloading in-mem collect config")
+
+	// AddHostMetadataToTrace is reloadable
+	i.setHostname()
 
 	i.SamplerFactory.ClearDynsamplers()
 
@@ -481,9 +482,7 @@ func (i *InMemCollector) ProcessSpanImmediately(sp *types.Span) (processed bool,
 	if i.Config.GetAddRuleReasonToTrace() {
 		sp.Data.Set(types.MetaRefineryReason, reason)
 	}
-	if i.hostname != "" {
-		sp.Data.Set(types.MetaRefineryLocalHostname, i.hostname)
-	}
+	i.addHostMetadata(sp)
 
 	i.addAdditionalAttributes(sp)
 	mergeTraceAndSpanSampleRates(sp, rate, i.Config.GetIsDryRun())
@@ -500,7 +499,7 @@ func (i *InMemCollector) dealWithSentTrace(ctx context.Context, tr cache.TraceSe
 	_, span := otelutil.StartSpanMulti(ctx, i.Tracer, "dealWithSentTrace", map[string]interface{}{
 		"trace_id":    sp.TraceID,
 		"kept_reason": keptReason,
-		"hostname":    i.hostname,
+		"hostname":    i.getHostname(),
 	})
 	defer span.End()
 
@@ -515,9 +514,7 @@ func (i *InMemCollector) dealWithSentTrace(ctx context.Context, tr cache.TraceSe
 		sp.Data.Set(types.MetaRefinerySendReason, TraceSendLateSpan)
 
 	}
-	if i.hostname != "" {
-		sp.Data.Set(types.MetaRefineryLocalHostname, i.hostname)
-	}
+	i.addHostMetadata(sp)
 	isDryRun := i.Config.GetIsDryRun()
 	keep := tr.Kept()
 	otelutil.AddSpanFields(span, map[string]interface{}{
@@ -700,6 +697,35 @@ type sentRecord struct {
 	reason string
 }
 
+// setHostname decides which hostname, if any, is added to forwarded spans: the
+// name of this host while AddHostMetadataToTrace is enabled, none otherwise. It
+// runs at startup and after every configuration reload, because the option is
+// reloadable.
+func (i *InMemCollector) setHostname() {
+	hostname := ""
+	if i.Config.GetAddHostMetadataToTrace() {
+		if h, err := os.Hostname(); err == nil {
+			hostname = h
+		}
+	}
+	i.mutex.Lock()
+	i.hostname = hostname
+	i.mutex.Unlock()
+}
+
+func (i *InMemCollector) getHostname() string {
+	i.mutex.RLock()
+	defer i.mutex.RUnlock()
+	return i.hostname
+}
+
+// addHostMetadata adds the local hostname to the span if host metadata is enabled.
+func (i *InMemCollector) addHostMetadata(sp *types.Span) {
+	if hostname := i.getHostname(); hostname != "" {
+		sp.Data.Set(types.MetaRefineryLocalHostname, hostname)
+	}
+}
+
 func (i *InMemCollector) addAdditionalAttributes(sp *types.Span) {
 	for k, v := range i.Config.GetAdditionalAttributes() {
 		sp.Data.Set(k, v)
@@ -740,9 +766,7 @@ func (i *InMemCollector) sendTraces() {
 			if isDryRun {
 				sp.Data.Set(config.DryRunFieldName, t.shouldSend)
 			}
-			if i.hostname != "" {
-				sp.Data.Set(types.MetaRefineryLocalHostname, i.hostname)
-			}
+			i.addHostMetadata(sp)
 			mergeTraceAndSpanSampleRates(sp, t.SampleRate(), isDryRun)
 			i.addAdditionalAttributes(sp)
 
